@@ -308,3 +308,114 @@ def anchors_digest(files_funcs):
         p = REPO / f
         h.update(p.read_bytes() if p.exists() else b'<missing>')
     return h.hexdigest()
+
+
+# ---------------------------------------------------------------------------------------------------------------
+# Line coverage of the anchored source files under the correspondence inputs (DESIGN 1.3, "what the tie touched").
+# sys.monitoring (CPython 3.12): every line location reports once and is then disabled, so the cost is negligible.
+# The result is informational (never an alarm): it names the functions / lines of the modelled files that no
+# correspondence case, oracle run or extra check executed in this run - the places where a change would be invisible.
+class AnchorCoverage:
+    def __init__(self, rel_files):
+        self.files = {}
+        for f in rel_files:
+            p = (REPO / f)
+            if p.is_file() and p.suffix == '.py':
+                self.files[str(p.resolve())] = f
+            elif p.is_dir():
+                for q in sorted(p.rglob('*.py')):
+                    self.files[str(q.resolve())] = str(q.relative_to(REPO))
+        self.hits = {fn: set() for fn in self.files}
+        self.active = False
+
+    def start(self):
+        mon = getattr(sys, 'monitoring', None)
+        if mon is None or not self.files:
+            return
+        try:
+            mon.use_tool_id(mon.COVERAGE_ID, 'verif-anchor-coverage')
+        except ValueError:
+            return
+        files, hits, DISABLE = self.files, self.hits, mon.DISABLE
+
+        def on_line(code, line):
+            fn = code.co_filename
+            if fn in files:
+                hits[fn].add(line)
+            return DISABLE
+        mon.register_callback(mon.COVERAGE_ID, mon.events.LINE, on_line)
+        mon.set_events(mon.COVERAGE_ID, mon.events.LINE)
+        self.active = True
+
+    def stop(self):
+        if not self.active:
+            return
+        mon = sys.monitoring
+        mon.set_events(mon.COVERAGE_ID, 0)
+        mon.register_callback(mon.COVERAGE_ID, mon.events.LINE, None)
+        mon.free_tool_id(mon.COVERAGE_ID)
+        self.active = False
+
+    @staticmethod
+    def _functions(path):
+        """qualname -> set of executable lines of every function/method body in the file (module and class level
+        statements are import-time code and are left out)"""
+        src = open(path, 'rb').read()
+        top = compile(src, path, 'exec', dont_inherit=True)
+        out = {}
+
+        def walk(co, owner):
+            is_func = bool(co.co_flags & 0x0001)          # CO_OPTIMIZED: function-like (not module / class body)
+            if is_func:
+                if not co.co_name.startswith('<'):
+                    owner = co.co_qualname
+                    lines = {l for _, _, l in co.co_lines() if l is not None and l != co.co_firstlineno}
+                else:                                      # lambda / generator expression: counted with its function
+                    lines = {l for _, _, l in co.co_lines() if l is not None}
+                if owner and lines:
+                    out.setdefault(owner, set()).update(lines)
+            for k in co.co_consts:
+                if hasattr(k, 'co_code'):
+                    walk(k, owner if is_func else None)
+        walk(top, None)
+        return out
+
+    def report(self):
+        if not self.files:
+            return None
+        rep = {'files': {}, 'never_entered': [], 'partially_covered': {}}
+        tot_e = tot_x = 0
+        for path, rel in sorted(self.files.items(), key=lambda kv: kv[1]):
+            try:
+                funcs = self._functions(path)
+            except Exception as e:
+                rep['files'][rel] = {'error': repr(e)}
+                continue
+            hit = self.hits.get(path, set())
+            ex = set().union(*funcs.values()) if funcs else set()
+            got = ex & hit
+            tot_e += len(got); tot_x += len(ex)
+            rep['files'][rel] = {'function_lines': len(ex), 'executed': len(got),
+                                 'pct': round(100.0 * len(got) / len(ex), 1) if ex else None}
+            for q, ls in sorted(funcs.items()):
+                g = ls & hit
+                if not g:
+                    rep['never_entered'].append('%s:%s' % (rel, q))
+                elif g != ls:
+                    rep['partially_covered']['%s:%s' % (rel, q)] = _ranges(sorted(ls - g))
+        rep['function_lines'] = tot_x
+        rep['executed'] = tot_e
+        rep['pct'] = round(100.0 * tot_e / tot_x, 1) if tot_x else None
+        rep['active'] = bool(getattr(sys, 'monitoring', None))
+        return rep
+
+
+def _ranges(ls):
+    out, i = [], 0
+    while i < len(ls):
+        j = i
+        while j + 1 < len(ls) and ls[j + 1] == ls[j] + 1:
+            j += 1
+        out.append(str(ls[i]) if i == j else '%d-%d' % (ls[i], ls[j]))
+        i = j + 1
+    return ','.join(out)
